@@ -27,7 +27,7 @@ def chunked_body(rng, payload=None, trailers=None, le=b'\r\n'):
 	out = b''
 	i = 0
 	while i < len(payload):
-		n = rng.randint(1, max(1, min(6, len(payload) - i)))
+		n = rng.randint(1, max(1, min(rng.choice([6, 6, 40, 300]), len(payload) - i)))
 		c = payload[i:i + n]
 		i += n
 		size = rng.choice([b'%x', b'%X', b'0%x', b'%x ']) % (len(c),)
@@ -93,6 +93,15 @@ def cuts_to_frags(s, cuts):
 		out.append(s[prev:c])
 		prev = c
 	return out if s else [b'']
+
+
+def single_cuts(s, limit=None):
+	"""every fragmentation into exactly two calls"""
+	pos = list(range(1, len(s)))
+	if limit and len(pos) > limit:
+		step = len(pos) / float(limit)
+		pos = sorted(set(pos[int(i * step)] for i in range(limit)))
+	return [[p] for p in pos]
 
 
 def fragmentations(rng, s, n_random=2, per_octet=True):
@@ -169,7 +178,7 @@ def gen_wf(rng, kind, n=None):
 			fields.append((rng.choice([b'Host', b'host', b'HOST']), hostv))
 		for _ in range(rng.randint(0, 4)):
 			fields.append((rng.choice(TOKEN_NAMES), field_value(rng)))
-		payload = rbytes(rng, 0, rng.choice([0, 3, 20, 60])) if has_body else b''
+		payload = rbytes(rng, 0, rng.choice([0, 3, 20, 60, 200, 700])) if has_body else b''
 		chunked = has_body and ver == (1, 1) and rng.random() < .5
 		trailers = []
 		if chunked:
